@@ -1005,6 +1005,18 @@ func (rc *raftNode) processReady(rd raft.Ready) {
 		}
 	}
 	processedMsgs, hasRequestSnapMsg := rc.processMessages(rd.Messages)
+	// A leader that makes a quorum on its own (a single replica group) commits an entry in the very Ready that asks
+	// to persist it. Such entries must be on disk before the apply loop gets them: it answers the clients, and a crash
+	// before the WAL write would lose acknowledged writes (the same defect as etcd issue 14370).
+	waitWALSync := raft.IsEmptySnap(rd.Snapshot) && shouldWaitWALSync(rd)
+	if waitWALSync {
+		if err := rc.persistRaftState(&rd); err != nil {
+			rc.Errorf("raft save states to disk error: %v", err)
+			go rc.ds.Stop()
+			<-rc.stopc
+			return
+		}
+	}
 	if len(rd.CommittedEntries) > 0 || !raft.IsEmptySnap(rd.Snapshot) || hasRequestSnapMsg {
 		var newPublished uint64
 		if !raft.IsEmptySnap(rd.Snapshot) {
@@ -1050,11 +1062,13 @@ func (rc *raftNode) processReady(rd raft.Ready) {
 
 	start := time.Now()
 	// TODO: save entries, hardstate and snapshot should be atomic, or it may corrupt the raft
-	if err := rc.persistRaftState(&rd); err != nil {
-		rc.Errorf("raft save states to disk error: %v", err)
-		go rc.ds.Stop()
-		<-rc.stopc
-		return
+	if !waitWALSync {
+		if err := rc.persistRaftState(&rd); err != nil {
+			rc.Errorf("raft save states to disk error: %v", err)
+			go rc.ds.Stop()
+			<-rc.stopc
+			return
+		}
 	}
 	cost := time.Since(start)
 	if cost >= raftSlow/2 {
@@ -1132,6 +1146,18 @@ func (rc *raftNode) processReady(rd raft.Ready) {
 		raftDone <- struct{}{}
 	}
 	rc.node.Advance(rd)
+}
+
+// shouldWaitWALSync reports whether the committed entries of the Ready overlap the entries it still asks to
+// persist (index and term only grow): only a leader that is a quorum by itself produces such a Ready.
+func shouldWaitWALSync(rd raft.Ready) bool {
+	if len(rd.CommittedEntries) == 0 || len(rd.Entries) == 0 {
+		return false
+	}
+	lastCommitted := rd.CommittedEntries[len(rd.CommittedEntries)-1]
+	firstUnstable := rd.Entries[0]
+	return lastCommitted.Term > firstUnstable.Term ||
+		(lastCommitted.Term == firstUnstable.Term && lastCommitted.Index >= firstUnstable.Index)
 }
 
 //should  atomically saves the Raft states, log entries and snapshots
